@@ -211,3 +211,13 @@ Theorem schema_decoder_fuel_functions : forall f bs, (length bs < f)%nat ->
   dec_f1 f bs = dec_f1_top bs /\ dec_f2 f bs = dec_f2_top bs.
 Proof. exact (fun f bs H => conj (dec_f1_fuel f bs H) (dec_f2_fuel f bs H)). Qed.
 Print Assumptions schema_decoder_fuel_functions.
+
+(** Exactly one "init_" prefix is stripped from a contract name, and a receive name is split at its first dot only. *)
+Example name_text_forms_strip_once :
+  to_json stub_leaves (TContractName SL8) (15 :: str_of "init_init_token") = Some (JObj [(s_contract, JStr (str_of "init_token"))], [])
+  /\ from_json stub_leaves (TContractName SL8) (JObj [(s_contract, JStr (str_of "init_token"))]) = Some (15 :: str_of "init_init_token")
+  /\ to_json stub_leaves (TContractName SL8) (5 :: str_of "init_") = Some (JObj [(s_contract, JStr [])], [])
+  /\ to_json stub_leaves (TReceiveName SL8) (13 :: str_of "init_a.b..c_d") = Some (JObj [(s_contract, JStr (str_of "init_a")); (s_func, JStr (str_of "b..c_d"))], [])
+  /\ from_json stub_leaves (TReceiveName SL8) (JObj [(s_contract, JStr (str_of "init_a")); (s_func, JStr (str_of "b..c_d"))]) = Some (13 :: str_of "init_a.b..c_d").
+Proof. vm_compute. repeat split; reflexivity. Qed.
+Print Assumptions name_text_forms_strip_once.
